@@ -612,7 +612,7 @@ func TestC15_Machine(t *testing.T) {
 	}
 	tl := newTally()
 	rapid.Check(t, func(rt *rapid.T) {
-		site := sites[rapid.IntRange(0, len(sites)-1).Draw(rt, "list")]
+		site := sites[pickIndex(rt, len(sites), "list")]
 		// generated entry content: no presence containers (gNMI notifications carry leaves only, so an
 		// empty presence container cannot survive that transport; C02's precondition, not C15's subject)
 		gopts := model.GenOpts{PlainStrings: true, Sparse: true, NoUnkeyed: true, Skip: func(f *model.FieldInfo) bool { return f.Presence }}
